@@ -325,6 +325,16 @@ def ref_line(state, line):
         if t[1] == "port":
             return None
         return ref_num(t[1], [dec(t[2])])
+    if t[0] == "fn" and t[1] == "hostport":
+        # htp_parse_port (static) through htp_parse_hostport on "h:<port text>": exact arithmetic, no wrap at any width.
+        # "~" = only the end of the result line is judged (the port number and the invalid mark)
+        src = bytes(dec(t[2]))
+        if src.startswith(b"h:") and b":" not in src[2:]:
+            pt = src[2:].strip(b" \t")
+            v = int(pt) if (len(pt) > 0 and all(48 <= ch <= 57 for ch in pt)) else -1
+            pn = v if 1 <= v <= 65535 else -1
+            return "~pn=%d invalid=%d" % (pn, 1 if pn == -1 else 0)
+        return None
     return None
 
 
@@ -546,12 +556,25 @@ def num_lines(ctx):
         lines.append("num cl %s" % h)
         lines.append("num chunked %s" % h)
         lines.append("num port %s" % h)
+        if s and all(ch in "0123456789" for ch in s):
+            lines.append("fn hostport " + hx(list(("h:" + s).encode("latin1"))))
+            lines.append("fn hostport " + hx(list(("h: " + s + "\t").encode("latin1"))))
         for pre in (" ", "\t ", "x", "\r\n"):
             for suf in (" ", "x", ";a", " ;"):
                 hb = hx(list((pre + s + suf).encode("latin1")))
                 lines.append("num cl %s" % hb)
                 lines.append("num chunked %s" % hb)
                 lines.append("num ppiw 10 %s" % hb)
+    for w in (8, 16, 31, 32, 33, 48, 62, 63, 64):
+        for k in (1, 2, 3):
+            for low in (0, 1, 80, 443, 8080, 65535, 65536):
+                v = k * 2 ** w + low
+                hs = hx(list(("%d" % v).encode("latin1")))
+                lines.append("fn hostport " + hx(list(("h:%d" % v).encode("latin1"))))
+                lines.append("num port %s" % hs)
+                lines.append("num cl %s" % hs)
+                lines.append("num ppiw 10 %s" % hs)
+                lines.append("num chunked " + hx(list(("%x" % v).encode("latin1"))))
     nr = 20000 if ctx.tier == "quick" else 300000
     al = b"0123456789abcdefABCDEFgz \t;\r\n\x00xX-+"
     for _ in range(nr):
@@ -560,6 +583,11 @@ def num_lines(ctx):
         f = rng.choice(("pint 10", "pint 16", "ppiw 10", "ppiw 16", "cl", "chunked", "port", "pint 2"))
         lines.append("num %s %s" % (f, h))
     return lines
+
+
+def _same(want, got):
+    """a reference line starting with "~" judges the end of the result line only"""
+    return got.endswith(want[1:]) if want.startswith("~") else want == got
 
 
 def run(ctx, model_ok=True, proofs_broken=False):
@@ -603,7 +631,7 @@ def run(ctx, model_ok=True, proofs_broken=False):
             families[fam] = families.get(fam, 0) + 1
             want = ref_line(st, line)
             distinct.add(got if len(sc) == 1 else (line.split(" ")[1], got))
-            if want is not None and want != got:
+            if want is not None and not _same(want, got):
                 oracle_fail.append({"script": sc, "line": line, "impl": got, "abstract_type": want})
                 break
         if len(oracle_fail) >= 3:
@@ -619,7 +647,7 @@ def run(ctx, model_ok=True, proofs_broken=False):
         bad = None
         for line, got in zip(d.get("script", []), d.get("impl", [])):
             want = ref_line(st, line)
-            if want is not None and want != got:
+            if want is not None and not _same(want, got):
                 bad = {"line": line, "impl": got, "abstract_type": want}
                 break
         if bad:
@@ -653,7 +681,7 @@ def replay(ctx, path):
     for line, got in zip(sc, co):
         want = ref_line(st, line)
         print("%s -> impl=%s abstract=%s" % (line, got, want))
-        if want is not None and want != got:
+        if want is not None and not _same(want, got):
             fail = True
     if fail:
         print("VIOLATION property=C17 replay=%s" % path)
